@@ -107,7 +107,7 @@ class Handler(mode.Handler):
 def make_exec(f, starts=None, arg_consts=None, pre=(), inline=None, handler=None, peel=(), head_consts=None):
     return irx.Exec(f, handler or Handler(inline), havoc="auto", auto=True, split_max=16, starts=starts, arg_consts=arg_consts,
                     int_cells=lambda ob, off, n: ob == ST and (off, n) == POSN,
-                    callee_writes={"tinyjambu_permutation_256": {0: (0, 16)}}, pre_conds=pre, peel=peel, head_consts=head_consts)
+                    callee_writes={"tinyjambu_permutation_256": {0: (0, 16)}}, pre_conds=pre, peel=peel, head_consts=head_consts, endptr=True)
 
 
 def posn_starts():
@@ -212,6 +212,11 @@ def run_update(ck_ob, mod, label):
         ptrs_ = [f.insts[i] for i in f.blocks[hdr_].insts if f.insts[i].op == "phi" and (f.insts[i].get("ty") or "").endswith("*")]
         ints_ = [f.insts[i] for i in f.blocks[hdr_].insts if f.insts[i].op == "phi" and not (f.insts[i].get("ty") or "").endswith("*")]
         ints_ = [I for I in ints_ if I.id not in AUXPHIS.get((f.name, hdr_), ())]
+        if not ints_ and hdr_ in ex.vrem:
+            # a loop driven by a cursor and an end pointer: the distance between them plays the remaining length
+            import types
+            ints_ = [types.SimpleNamespace(id=ex.vrem[hdr_][0])]
+            ptrs_ = [P_ for P_ in ptrs_ if P_.id == ex.vrem[hdr_][1]]
         ended = any(p_.end[0] in ("loop-entry", "backedge") and p_.end[1] == hdr_ for p_ in paths)
         if not ended:
             continue        # a helper loop with a decided trip count (followed by the executor), e.g. inside an inlined compression function
